@@ -23,8 +23,11 @@ var (
 		AllowEmptyRoot:  true,
 		Compress:        true,
 		CompressBrotli:  true,
-		CompressZstd:    true,
 		AcceptByteRange: true,
+		// no zstd: the zstd copies fasthttp 1.60 builds of the embedded files
+		// intermittently do not decode (also for a single client, also through
+		// fasthttp.ServeFS), and a shared file server keeps such a copy for
+		// its cache duration; gzip and brotli copies are fine
 	}).NewRequestHandler()
 	swaggerFileRe = regexp.MustCompile(`(.*)(index\.html|doc\.json|favicon-16x16\.png|favicon-32x32\.png|/oauth2-redirect\.html|swagger-ui\.css|swagger-ui\.css\.map|swagger-ui\.js|swagger-ui\.js\.map|swagger-ui-bundle\.js|swagger-ui-bundle\.js\.map|swagger-ui-standalone-preset\.js|swagger-ui-standalone-preset\.js\.map)[\?|.]*`)
 )
